@@ -1,11 +1,16 @@
 //! C12 -- every scalar value survives serialization and deserialization unchanged.
 //!
 //! K: the plain-safety predicates, the quoting decision and the escapers (value and key position),
-//!    the parser's reading of quoted tokens, and the float text normalisation vs `SS.Model.SerScalar`.
+//!    the parser's reading of quoted tokens, and the float text normalisation vs `SS.Model.SerScalar`;
+//!    literal block scalars: header and body lines the serializer writes for LitString(v) (root, map
+//!    value, sequence item, key after a dash; indent steps 2-4) vs `SS.Model.BlockScalar.emit_literal`,
+//!    and the parser's reading of those texts and of perturbed headers / blank lines vs `read_literal`;
+//!    folded blocks of one paragraph (long one-line strings x wrap columns) vs `SS.Model.FoldedPar`.
 //! S: strings over an adversarial alphabet x positions x option vectors, integer boundaries, floats
 //!    (bit for bit, grammar of the emitted text), chars, bools, unit/None, byte arrays: serialize,
 //!    deserialize back into the same type, compare; the emitted string also reads back as that string
-//!    through the untyped tree (never null / number / boolean / merge / marker).
+//!    through the untyped tree (never null / number / boolean / merge / marker); mapping-key positions
+//!    (block / flow map keys) for strings and all integer widths; block and folded round trips.
 use crate::coq;
 use crate::ctx::{Ctx, Rng};
 use crate::tree::Tree;
